@@ -44,12 +44,14 @@ func teffOf(tset string) time.Duration {
 		return time.Second
 	case "10s":
 		return 10 * time.Second
+	case "500µs":
+		return 500 * time.Microsecond
 	}
 	return 5 * time.Second
 }
 
 func runC20(x *mc.X) {
-	tset := mc.Pick(x, "swr-timeout-option", []string{"unset", "0", "-1s", "1s", "10s"})
+	tset := mc.Pick(x, "swr-timeout-option", []string{"unset", "0", "-1s", "1s", "10s", "500µs"})
 	lat := mc.Pick(x, "origin-latency", []string{"0", "1s", "T-1ns", "T+1ns", "2T", "never"})
 	outcome := mc.Pick(x, "background-outcome", []string{"304", "200", "500", "error", "body-error"})
 	validators := mc.Pick(x, "validators", []string{"etag", "lm", "both", "none"})
@@ -81,6 +83,9 @@ func runC20(x *mc.X) {
 		opt.SWRTimeout, teff = &d, d
 	case "10s":
 		d := 10 * time.Second
+		opt.SWRTimeout, teff = &d, d
+	case "500µs": // positive, however small: it is the timeout
+		d := 500 * time.Microsecond
 		opt.SWRTimeout, teff = &d, d
 	}
 	var L time.Duration
